@@ -177,6 +177,12 @@ fn resolve_type(
             return;
         }
 
+        if let Some(android) = ast::AndroidTypeKind::from_qualified_name(import_path) {
+            // Imported built-in Android type => it is still a built-in type
+            type_.kind = ast::TypeKind::AndroidType(android);
+            return;
+        }
+
         // Imported but not defined => set resolved item as unknown import
         type_.kind = ast::TypeKind::ResolvedItem(
             import_path.to_owned(),
